@@ -73,6 +73,10 @@ PROBES = [
     ("defs-in-repeat", [("p.mac", " nop\n.repeat 3 {\n xq = 5\n 7$: nop\n}\n.repeat 1 { yq: .word 1 }\n")]),
     ("sob-plain", [("p.mac", "lp: nop\n sob r0, lp\n sob r1, .\n sob r2, lp + 2\n7: sob r4, 7\n")]),
     ("tilde-output", [("p.mac", "make_raw \"~outt\"\nmake_bin \"~Outb\"\n nop\n")]),
+    # a stray operand after a directive that takes none: what kind of operand it is read as goes by what follows, every time
+    ("stray-operand-string", [("p.mac", " nop\n.even /x/\n.odd \"s\"\n.page 'q'\n")]),
+    ("stray-operand-number", [("p.mac", " nop\n.even 2\n")]),
+    ("stray-operand-number-odd", [("p.mac", ".odd 3\n.page 4 + 1\n")]),
     ("tape-names", [("p.mac", "make_wav \"a.wav\", \"FIRST\"\nmake_wav \"b.wav\", \"SECOND\"\nmake_turbo_wav \"c.wav\", \"\"\nmake_wav \"d.wav\"\n .word 1, 2\n")]),
 ]
 
